@@ -58,7 +58,7 @@ def array_out(a):
 
 def main():
     jobs = json.loads(open(sys.argv[1]).read())
-    res = {'merge': [], 'runs': [], 'edge': [], 'log': []}
+    res = {'merge': [], 'runs': [], 'edge': [], 'reindex': [], 'log': []}
     buf = io.StringIO()
     t0 = time.time()
     with contextlib.redirect_stdout(buf):
@@ -82,6 +82,23 @@ def main():
         except Exception as e:  # noqa
             out['error'] = type(e).__name__ + ': ' + str(e)[:200]
         res['merge'].append(out)
+
+    # ------------------------------------------- reindex + recalc_node_pos
+    for job in jobs.get('reindex', []):
+        out = {'id': job['id']}
+        try:
+            indptr, dat = csr_of(job['polys'])
+            conv = np.array(job['conv'], np.int32)
+            pos = np.array(job['pos'], np.float64)
+            with contextlib.redirect_stdout(buf):
+                mcmod.reindex((indptr, dat), conv)
+                newpos = mcmod.recalc_node_pos(pos, conv)
+            out['polys'] = [decode_poly(dat[indptr[i]:indptr[i + 1]])[0] for i in range(len(indptr) - 1)]
+            out['conv'] = [int(v) for v in conv]
+            out['pos'] = [[ratio(c) for c in row] for row in newpos]
+        except Exception as e:  # noqa
+            out['error'] = type(e).__name__ + ': ' + str(e)[:200]
+        res['reindex'].append(out)
 
     # -------------------------- remove_one_edge / remove_one_vertex (unit)
     for job in jobs.get('edge', []):
